@@ -233,4 +233,149 @@ theorem delRounds_accepted : ∀ (f : Nat) (objs : List DelObj) (d : Dev),
       rw [hfr r (fun p hp => hr' p (List.mem_filter.1 hp).1)]
       exact hobj1 r (fun p hp => hr' p (List.mem_filter.1 hp).1)
 
+/-! ## … and it removes every pending object (given enough rounds and no reference cycles among them) -/
+
+theorem exists_max_rank (rank : Ref → Nat) : ∀ (l : List DelObj), l ≠ [] → ∃ p ∈ l, ∀ q ∈ l, rank q.id ≤ rank p.id
+  | [], h => absurd rfl h
+  | [x], _ => ⟨x, List.mem_cons_self, by intro q hq; cases hq with | head => exact Nat.le_refl _ | tail _ h => cases h⟩
+  | x :: y :: ys, _ => by
+    obtain ⟨p, hp, hmax⟩ := exists_max_rank rank (y :: ys) (by intro h; cases h)
+    by_cases hx : rank p.id ≤ rank x.id
+    · refine ⟨x, List.mem_cons_self, ?_⟩
+      intro q hq
+      cases hq with
+      | head => exact Nat.le_refl _
+      | tail _ hq => exact Nat.le_trans (hmax q hq) hx
+    · refine ⟨p, List.mem_cons_of_mem _ hp, ?_⟩
+      intro q hq
+      cases hq with
+      | head => omega
+      | tail _ hq => exact hmax q hq
+
+theorem find?_filter_all_none (objs : List Obj) (now : List DelObj) (p : DelObj) (hp : p ∈ now) :
+    (objs.filter fun o => now.all fun q => o.id != q.id).find? (fun o => o.id == p.id) = none := by
+  apply List.find?_eq_none.2
+  intro o ho
+  have h2 := (List.mem_filter.1 ho).2
+  have := (List.all_eq_true.1 h2) p hp
+  simpa using this
+
+/-- **The clean-up removes what it set out to remove.**  In addition to `delRounds_accepted`: if the references among the
+pending objects go to strictly lower `rank` (no cycles; in fragment G the rank of the kind) and there are at least as many
+rounds as pending objects, every pending object is gone afterwards. -/
+theorem delRounds_removes (rank : Ref → Nat) : ∀ (f : Nat) (objs : List DelObj) (d : Dev),
+    objs.Pairwise (fun p q => p.id ≠ q.id) →
+    (∀ p ∈ objs, Shape d p) →
+    (∀ p ∈ objs, ∀ x ∈ d.objs, x.refs.contains p.id = true → ∃ q ∈ objs, q.id = x.id ∧ q.refs = x.refs) →
+    (∀ p ∈ objs, ∀ q ∈ objs, p.refs.contains q.id = true → rank q.id < rank p.id) →
+    objs.length ≤ f →
+    ∃ d', execAll d (delRounds f objs) = some d' ∧ (∀ r, (∀ p ∈ objs, p.id ≠ r) → d'.obj r = d.obj r) ∧
+      ∀ p ∈ objs, d'.obj p.id = none
+  | 0, objs, d, _, _, _, _, hf => by
+    have : objs = [] := List.eq_nil_of_length_eq_zero (by omega)
+    subst this
+    exact ⟨d, rfl, fun _ _ => rfl, fun p hp => by cases hp⟩
+  | _ + 1, [], d, _, _, _, _, _ => ⟨d, rfl, fun _ _ => rfl, fun p hp => by cases hp⟩
+  | f + 1, o0 :: os, d, hn, hs, hr, hrk, hf => by
+    let objs := o0 :: os
+    let isRef (o : DelObj) : Bool := objs.any fun x => x.refs.contains o.id
+    let now := objs.filter fun o => !isRef o
+    let later := objs.filter isRef
+    have hunf : delRounds (f + 1) (o0 :: os) = now.flatMap (·.lines) ++ delRounds f later := rfl
+    have hnow : ∀ p ∈ now, Deletable d p := by
+      intro p hp
+      have hpm := (List.mem_filter.1 hp)
+      refine ⟨?_, hs p hpm.1⟩
+      cases hrf : d.referenced p.id with
+      | false => rfl
+      | true =>
+        exfalso
+        unfold Dev.referenced at hrf
+        obtain ⟨x, hx, hxr⟩ := List.any_eq_true.1 hrf
+        obtain ⟨q, hq, _, hqr⟩ := hr p hpm.1 x hx hxr
+        have : isRef p = true := List.any_eq_true.2 ⟨q, hq, by rw [hqr]; exact hxr⟩
+        have h2 := hpm.2
+        rw [this] at h2; cases h2
+    have hnp : now.Pairwise (fun p q => p.id ≠ q.id) := hn.sublist List.filter_sublist
+    have hround := round_accepted now d hnow hnp
+    -- the object of highest rank is referenced by no pending object: this round is not empty
+    obtain ⟨pm, hpm, hmax⟩ := exists_max_rank rank (o0 :: os) (List.cons_ne_nil _ _)
+    have hpm_now : pm ∈ now := by
+      apply List.mem_filter.2
+      refine ⟨hpm, ?_⟩
+      cases hir : isRef pm with
+      | false => rfl
+      | true =>
+        exfalso
+        obtain ⟨x, hx, hxr⟩ := List.any_eq_true.1 hir
+        have h1 := hrk x hx pm hpm hxr
+        have h2 := hmax x hx
+        omega
+    have hne : now.isEmpty = false := by
+      cases hnw : now with
+      | nil => rw [hnw] at hpm_now; cases hpm_now
+      | cons _ _ => rfl
+    have hlen : later.length < objs.length := by
+      apply List.length_filter_lt_length_iff_exists.2
+      refine ⟨pm, hpm, ?_⟩
+      have := (List.mem_filter.1 hpm_now).2
+      simpa using this
+    let d1 : Dev := { objs := d.objs.filter fun o => now.all fun p => o.id != p.id, mode := none }
+    have hround' : execAll d (now.flatMap (·.lines)) = some d1 := by
+      rw [hround]; simp only [hne, Bool.false_eq_true, if_false, d1]
+    have hobj1 : ∀ r, (∀ p ∈ now, p.id ≠ r) → d1.obj r = d.obj r := fun r hr' => find?_filter_all d.objs now r hr'
+    have hsub1 : ∀ x ∈ d1.objs, x ∈ d.objs ∧ ∀ p ∈ now, x.id ≠ p.id := by
+      intro x hx
+      have h2 := List.mem_filter.1 hx
+      refine ⟨h2.1, ?_⟩
+      intro p hp
+      have := (List.all_eq_true.1 h2.2) p hp
+      simpa using this
+    have hlater_ne : ∀ q ∈ later, ∀ p ∈ now, p.id ≠ q.id := by
+      intro q hq p hp e
+      have hq' := List.mem_filter.1 hq
+      have hp' := List.mem_filter.1 hp
+      have := pairwise_id_inj hn p hp'.1 q hq'.1 e
+      subst this
+      have h1 := hp'.2
+      rw [hq'.2] at h1; cases h1
+    have ih := delRounds_removes rank f later d1 (hn.sublist List.filter_sublist)
+      (by
+        intro q hq
+        exact Shape.of_obj_eq (hobj1 q.id (hlater_ne q hq)) (hs q (List.mem_filter.1 hq).1))
+      (by
+        intro q hq x hx hxr
+        have hx' := hsub1 x hx
+        obtain ⟨q', hq', hid, hrefs⟩ := hr q (List.mem_filter.1 hq).1 x hx'.1 hxr
+        refine ⟨q', ?_, hid, hrefs⟩
+        apply List.mem_filter.2
+        refine ⟨hq', ?_⟩
+        cases hir : isRef q' with
+        | true => rfl
+        | false =>
+          exfalso
+          have : q' ∈ now := List.mem_filter.2 ⟨hq', by simp [hir]⟩
+          exact hx'.2 q' this hid.symm)
+      (by
+        intro p hp q hq hpq
+        exact hrk p (List.mem_filter.1 hp).1 q (List.mem_filter.1 hq).1 hpq)
+      (by
+        have : objs.length = os.length + 1 := rfl
+        have h2 : (o0 :: os).length = os.length + 1 := rfl
+        omega)
+    obtain ⟨d', hex, hfr, hgone⟩ := ih
+    refine ⟨d', ?_, ?_, ?_⟩
+    · rw [hunf, execAll_append, hround']
+      exact hex
+    · intro r hr'
+      rw [hfr r (fun p hp => hr' p (List.mem_filter.1 hp).1)]
+      exact hobj1 r (fun p hp => hr' p (List.mem_filter.1 hp).1)
+    · intro p hp
+      cases hir : isRef p with
+      | true => exact hgone p (List.mem_filter.2 ⟨hp, hir⟩)
+      | false =>
+        have hpn : p ∈ now := List.mem_filter.2 ⟨hp, by simp [hir]⟩
+        rw [hfr p.id (fun q hq e => hlater_ne q hq p hpn e.symm)]
+        exact find?_filter_all_none d.objs now p hpn
+
 end NA.Vpn.G
